@@ -20,7 +20,9 @@ def histories(ctx, rng):
     def call(op, b):
         return {"op": op, "b": b, "knob": 0, "expect_ok": True}
     hs.insert(0, [call("fit", [1, 2, 3]), call("transform", [1, 2, 3]), call("transform", [3, 1, 2]), call("transform", [2, 2, 1])])
-    hs.insert(1, [call("fit", [1, 2, 3, 4]), call("transform", [4]), call("transform", [1, 2]), call("transform", [3, 4, 1])])
+    hs.insert(1, [call("fit", [1, 2, 3, 4]), call("transform", [4]), call("transform", [1, 2]), call("transform", [3, 4, 1]),
+                  # batches that do not fill a whole number of internal blocks / chunks
+                  call("transform", [3, 4, 1, 2, 4, 3, 1]), call("transform", [2, 1, 4, 3, 2])])
     return hs
 
 
